@@ -57,6 +57,10 @@ type Run struct {
 	Trusted     []string
 	Assumptions []string
 
+	// KeyPrefix is prepended to the key of every obligation recorded while it is set (used by the thorough
+	// tier to repeat the rules under other build targets).
+	KeyPrefix string
+
 	start   time.Time
 	obls    []Obligation
 	counts  map[string]int // "what was analysed" counters
@@ -77,7 +81,7 @@ func NewRun(prop, tier string, seed int, level, verif, repo string) *Run {
 }
 
 func (r *Run) add(rule, key, pos string, st Status, detail string) {
-	r.obls = append(r.obls, Obligation{Property: r.Property, Rule: rule, Key: key, Pos: r.rel(pos), Status: st, Detail: detail})
+	r.obls = append(r.obls, Obligation{Property: r.Property, Rule: rule, Key: r.KeyPrefix + key, Pos: r.rel(pos), Status: st, Detail: detail})
 }
 
 func (r *Run) rel(pos string) string {
@@ -108,11 +112,26 @@ func (r *Run) Check(cond bool, rule, key, pos, okDetail, badDetail string) bool 
 
 // Floor demands that rule matched at least min instances (else the rule is vacuous).
 func (r *Run) Floor(rule string, got, min int) {
-	r.floors = append(r.floors, floor{rule, got, min})
+	r.floors = append(r.floors, floor{r.KeyPrefix + rule, got, min})
+}
+
+// Failed reports whether any violated or undecided obligation (or unmet floor) was recorded so far.
+func (r *Run) Failed() (bool, string) {
+	for _, o := range r.obls {
+		if o.Status == Violated || o.Status == Undecided {
+			return true, o.Rule + " " + o.Key
+		}
+	}
+	for _, f := range r.floors {
+		if f.got < f.min {
+			return true, "floor " + f.rule
+		}
+	}
+	return false, ""
 }
 
 // Count adds to a "what was analysed" counter shown in the evidence.
-func (r *Run) Count(what string, n int) { r.counts[what] += n }
+func (r *Run) Count(what string, n int) { r.counts[r.KeyPrefix+what] += n }
 
 // Note prints and records a remark that is not an obligation.
 func (r *Run) Note(format string, a ...interface{}) {
